@@ -1,1 +1,45 @@
-fn main(){}
+mod common;
+mod lens;
+mod monitors;
+mod props;
+mod refmodel;
+mod selftest;
+
+use common::Tier;
+
+fn main() {
+    let args: Vec<String> = std::env::args().collect();
+    if args.len() < 2 {
+        eprintln!("usage: purl-verif <Cxx|selftest> [--tier quick|thorough] [--replay <file>]");
+        std::process::exit(2);
+    }
+    let prop = args[1].clone();
+    let mut tier = match std::env::var("VERIF_TIER").as_deref() {
+        Ok("thorough") => Tier::Thorough,
+        _ => Tier::Quick,
+    };
+    let mut replay: Option<String> = None;
+    let mut i = 2;
+    while i < args.len() {
+        match args[i].as_str() {
+            "--tier" => {
+                i += 1;
+                tier = if args.get(i).map(String::as_str) == Some("thorough") { Tier::Thorough } else { Tier::Quick };
+            },
+            "--replay" => {
+                i += 1;
+                replay = args.get(i).cloned();
+            },
+            other => {
+                eprintln!("unknown argument {other}");
+                std::process::exit(2);
+            },
+        }
+        i += 1;
+    }
+    let seed: i64 = std::env::var("VERIF_SEED").ok().and_then(|s| s.parse().ok()).unwrap_or(0);
+    // silence the default panic message: every library call is wrapped and reported by the harness
+    std::panic::set_hook(Box::new(|_| {}));
+    let code = props::run(&prop, tier, seed, replay.as_deref());
+    std::process::exit(code);
+}
